@@ -25,10 +25,12 @@ CONSTANTS Alphabet, MaxLen, FixedSoap, FixedArtifact
 Strings == UNION {[1..k -> Alphabet] : k \in 0..MaxLen}
 None == <<"none">>
 Bindings == {"redirect", "post", "soap", "artifact"}
-Scn == [binding : Bindings, typ : {"SAMLRequest", "SAMLResponse"}, msg : Strings, relay : Strings \cup {None},
+\* typ "SAMLart": the redirect encoder used for an artifact (the third message type http_redirect_message documents)
+Scn == [binding : Bindings, typ : {"SAMLRequest", "SAMLResponse", "SAMLart"}, msg : Strings, relay : Strings \cup {None},
         locq : BOOLEAN, signed : BOOLEAN, decl : BOOLEAN]
 WellFormed(s) ==
     /\ (s.signed => s.binding = "redirect")
+    /\ (s.typ = "SAMLart" => s.binding = "redirect" /\ ~s.signed /\ s.msg = <<>>)
     /\ (s.decl => s.binding = "soap")                    \* message text starts with an XML declaration line (tool output)
     /\ (s.binding = "soap" => s.relay = None /\ ~s.locq /\ s.typ = "SAMLRequest")
     /\ (s.binding = "artifact" => s.typ = "SAMLRequest" /\ s.msg = <<>>)     \* the artifact itself is base64
@@ -54,7 +56,7 @@ JoinAmp(ps) == IF ps = <<>> THEN <<>> ELSE IF Len(ps) = 1 THEN ps[1] ELSE ps[1] 
 Location(s) == IF s.locq THEN <<"loc", "QM", "x", "EQ", "one">> ELSE <<"loc">>
 Glue(s, fixed) == IF s.locq /\ fixed THEN <<"AMP">> ELSE <<"QM">>
 RedirectParams(s) ==
-    << Param(s.typ, UrlEsc(B64(s.msg))) >>
+    << Param(s.typ, UrlEsc(IF s.typ = "SAMLart" THEN Artifact ELSE B64(s.msg))) >>
     \o (IF s.relay # None /\ s.relay # <<>> THEN << Param("RelayState", UrlEsc(s.relay)) >> ELSE <<>>)
     \o (IF s.signed THEN << Param("SigAlg", UrlEsc(<<"a">>)), Param("Signature", UrlEsc(<<"b64:sig", "plus", "eq">>)) >> ELSE <<>>)
 ArtifactParams(s) ==
@@ -86,7 +88,7 @@ ParamsRead(w) == LET ps == SplitAt(QueryOf(w), "AMP", <<>>) IN
 Range(q) == {q[i] : i \in 1..Len(q)}
 Expected(s) ==
     (IF s.locq THEN {<<"x", <<"one">>>>} ELSE {})
-    \cup (IF s.binding = "redirect" THEN {<<s.typ, B64(s.msg)>>} ELSE {<<"SAMLart", Artifact>>})
+    \cup (IF s.binding = "redirect" /\ s.typ # "SAMLart" THEN {<<s.typ, B64(s.msg)>>} ELSE {<<"SAMLart", Artifact>>})
     \cup (IF s.relay # None /\ s.relay # <<>> THEN {<<"RelayState", s.relay>>} ELSE {})
     \cup (IF s.signed THEN {<<"SigAlg", <<"a">>>>, <<"Signature", <<"b64:sig", "plus", "eq">>>>} ELSE {})
 
